@@ -321,7 +321,7 @@ fn run(c: &mut Case) {
         // reference run without interleaved try_recover, same source & cfg
         let plain = plain_run(src.clone(), &cfg, len, None);
         for k in ks {
-            let kind = *c.rng.pick(&[ErrorKind::Other, ErrorKind::BrokenPipe, ErrorKind::TimedOut, ErrorKind::PermissionDenied, ErrorKind::UnexpectedEof, ErrorKind::Interrupted, ErrorKind::WouldBlock]);
+            let kind = *c.rng.pick(&[ErrorKind::Other, ErrorKind::BrokenPipe, ErrorKind::TimedOut, ErrorKind::PermissionDenied, ErrorKind::UnexpectedEof, ErrorKind::WouldBlock]);
             let msg = format!("verif-io-#{}", k);
             let f = plain_run(src.clone(), &cfg, len, Some((k, kind, msg.clone())));
             c.count("fault_runs");
@@ -331,7 +331,7 @@ fn run(c: &mut Case) {
                     c.violation(format!("C05/io-fault/{}/{}", cg.sig(), sig_ctx(&inp, &cfg)), format!("with an I/O error at read #{}: {}", k, cg.text()), wit(J::obj().set("fault_at_read", J::u(k))));
                     continue;
                 }
-                (None, Some(ErrRec::Read { kind: gk, msg: gm })) if *gk == format!("{:?}", kind) && gm.contains(&msg) => {}
+                (None, Some(ErrRec::Read { kind: gk, msg: gm })) if *gk == format!("{:?}", kind) && *gm == msg => {}
                 (None, other) => {
                     if f.reads <= k {
                         c.count("fault_not_reached");
